@@ -13,6 +13,10 @@ impl Events {
     }
     /// Get the next [`Event`].
     pub fn next(&mut self) -> Option<Event> {
+        #[cfg(feature = "verif-hooks")]
+        if verif::active() {
+            return verif::pop().map(Event::Key);
+        }
         match event::poll(Duration::from_secs(0)) {
             Ok(true) => event::read().ok(),
             _ => None,
@@ -24,5 +28,37 @@ impl Events {
             Event::Key(ke) => Some(ke),
             _ => None,
         })
+    }
+}
+
+/// Key injection queue for the external verification harness. Additive only;
+/// compiled in with the (non-default) cargo feature `verif-hooks`.
+#[cfg(feature = "verif-hooks")]
+pub mod verif {
+    use crossterm::event::KeyEvent;
+    use std::{cell::RefCell, collections::VecDeque};
+
+    thread_local! {
+        static QUEUE: RefCell<Option<VecDeque<KeyEvent>>> = RefCell::new(None);
+    }
+    /// Route `Events::next` to the injection queue of this thread.
+    pub fn activate() {
+        QUEUE.with(|q| *q.borrow_mut() = Some(VecDeque::new()));
+    }
+    /// Is the injection queue active on this thread?
+    pub fn active() -> bool {
+        QUEUE.with(|q| q.borrow().is_some())
+    }
+    /// Queue a key event.
+    pub fn push(key: KeyEvent) {
+        QUEUE.with(|q| {
+            if let Some(q) = q.borrow_mut().as_mut() {
+                q.push_back(key)
+            }
+        });
+    }
+    /// Take the next queued key event.
+    pub fn pop() -> Option<KeyEvent> {
+        QUEUE.with(|q| q.borrow_mut().as_mut().and_then(|q| q.pop_front()))
     }
 }
